@@ -15,6 +15,8 @@ import (
 	"fmt"
 	"hash/fnv"
 	"os"
+	"runtime/debug"
+	"runtime/pprof"
 	"sort"
 	"strings"
 	"sync"
@@ -37,6 +39,7 @@ type partStats struct {
 	aborted, udp           atomic.Int64
 	ops                    atomic.Int64
 	failing                atomic.Int64
+	skipped                bool
 }
 
 type base struct {
@@ -45,6 +48,7 @@ type base struct {
 	span   int // how many post-handshake bytes the cuts reach into
 	part   *partStats
 	idx    int64
+	phase  int
 	shard  int
 	shards int
 	sample bool
@@ -60,11 +64,15 @@ type engine struct {
 	c        *harness.Check
 	ch       chan base
 	wg       sync.WaitGroup
+	inflight sync.WaitGroup
 	mu       sync.Mutex
 	viols    map[string]*vrec
 	samples  map[int64]any
 	seen     map[uint64]struct{}
 	parts    []*partStats
+	allParts []*partStats
+	phase    int // 0 writer's chunks + read sizes | 1 single cuts | 2 pairs of cuts
+	failed   map[int64]bool
 	nextIdx  int64
 	deadline time.Time
 	capped   atomic.Bool
@@ -74,16 +82,17 @@ type engine struct {
 }
 
 func newEngine(c *harness.Check) *engine {
-	e := &engine{c: c, ch: make(chan base, 256), viols: map[string]*vrec{}, samples: map[int64]any{}, seen: map[uint64]struct{}{}}
+	e := &engine{c: c, ch: make(chan base, 256), viols: map[string]*vrec{}, samples: map[int64]any{}, seen: map[uint64]struct{}{}, failed: map[int64]bool{}}
 	e.deadline = time.Now().Add(harness.Pick(c, 170*time.Second, 150*time.Minute))
 	n := harness.Workers()
 	for i := 0; i < n; i++ {
 		e.wg.Add(1)
 		go func() {
 			defer e.wg.Done()
-			timer := time.NewTimer(time.Hour)
+			rn := newRunner()
 			for b := range e.ch {
-				e.runBase(&b, timer)
+				e.runBase(&b, rn)
+				e.inflight.Done()
 			}
 		}()
 	}
@@ -91,40 +100,73 @@ func newEngine(c *harness.Check) *engine {
 }
 
 func (e *engine) part(name, alphabet, bounds string) *partStats {
+	for _, q := range e.allParts {
+		if q.name == name {
+			return q
+		}
+	}
 	p := &partStats{name: name, alphabet: alphabet, bounds: bounds}
+	e.allParts = append(e.allParts, p)
+	// development aid: C07_PARTS=name,name restricts the run to some parts (the evidence then says so)
+	if only := os.Getenv("C07_PARTS"); only != "" && !strings.Contains(","+only+",", ","+name+",") {
+		p.skipped = true
+		return p
+	}
 	e.parts = append(e.parts, p)
 	return p
 }
 
 // emit queues a base case with its fragmentation plan.
 func (e *engine) emit(p *partStats, sp Spec, plan, span int) {
-	if e.capped.Load() {
-		return
-	}
-	if time.Now().After(e.deadline) {
-		if !e.capped.Swap(true) {
-			e.c.Cap("time budget reached while enumerating part " + p.name + "; later parts were not run")
-		}
+	if p.skipped || e.capped.Load() {
 		return
 	}
 	h := fnv.New64a()
 	h.Write([]byte(sp.key()))
 	k := h.Sum64()
 	if _, dup := e.seen[k]; dup {
-		p.dupBases.Add(1)
+		if e.phase == 0 {
+			p.dupBases.Add(1)
+		}
 		return
 	}
 	e.seen[k] = struct{}{}
-	idx := e.nextIdx
+	idx := e.nextIdx // position in the enumeration order, identical in every pass
 	e.nextIdx++
-	sample := p.bases.Add(1) == 1
+	if plan < []int{0, 2, 3}[e.phase] {
+		return
+	}
+	if time.Now().After(e.deadline) {
+		if !e.capped.Swap(true) {
+			e.c.Cap(fmt.Sprintf("time budget reached in pass %d (%s) at part %s; the rest of this pass and later passes were not run", e.phase, phaseName[e.phase], p.name))
+		}
+		return
+	}
+	sample := false
+	if e.phase == 0 {
+		sample = p.bases.Add(1) == 1
+	}
 	shards := 1
-	if plan >= 3 {
+	if e.phase == 2 {
 		shards = 8
 	}
 	for s := 0; s < shards; s++ {
-		e.ch <- base{sp: sp, plan: plan, span: span, part: p, idx: idx, shard: s, shards: shards, sample: sample && s == 0}
+		e.inflight.Add(1)
+		e.ch <- base{sp: sp, plan: plan, span: span, part: p, idx: idx, phase: e.phase, shard: s, shards: shards, sample: sample}
 	}
+}
+
+var phaseName = []string{"writer's chunks and maximal read sizes", "single cuts", "pairs of cuts"}
+
+// pass runs the enumeration once for one fragmentation depth.  Breadth first:
+// every base case is run unfragmented before any cut is tried, all single cuts
+// before any pair.
+func (e *engine) pass(phase int) {
+	e.phase = phase
+	e.seen = map[uint64]struct{}{}
+	e.nextIdx = 0
+	e.enumerate()
+	e.inflight.Wait()
 }
 
 func (e *engine) report(sp *Spec, fs fails, ord [3]int64) {
@@ -209,17 +251,18 @@ func fragOf(cs ...cutPos) Frag {
 	return f
 }
 
-func (e *engine) runBase(b *base, timer *time.Timer) {
+func (e *engine) runBase(b *base, rn *runner) {
 	if e.capped.Load() {
 		return
 	}
 	sp := b.sp
 	p := b.part
+	rn.prepare(&sp)
 	bkey := ""
 	var n, ops, fNone, fEvery, fOne, fTwo, failing int64
 	exec := func(fr Frag, fi, fj int64, count bool) (*Result, bool) {
 		sp.Frag = fr
-		r := runCase(&sp, timer)
+		r := rn.runCase(&sp)
 		if r.Hang {
 			if e.hangs.Add(1) == 1 {
 				e.c.Cap("a case did not terminate within 60 s of wall time (not a verdict): " + sp.describe())
@@ -264,7 +307,20 @@ func (e *engine) runBase(b *base, timer *time.Timer) {
 	}
 	defer flush()
 
-	first := b.shard == 0
+	first := b.phase == 0
+	if !first {
+		e.mu.Lock()
+		skip := e.failed[b.idx]
+		e.mu.Unlock()
+		if skip {
+			return
+		}
+	}
+	markFailed := func() {
+		e.mu.Lock()
+		e.failed[b.idx] = true
+		e.mu.Unlock()
+	}
 	r0, ok := exec(Frag{}, -1, -1, first)
 	if first {
 		ex := sp.expect()
@@ -291,58 +347,57 @@ func (e *engine) runBase(b *base, timer *time.Timer) {
 			e.mu.Unlock()
 		}
 	}
-	if !ok || r0.Hang || b.plan < 1 {
+	if !ok {
+		markFailed()
 		return
 	}
-	if first {
-		for i, ev := range []int{1, 2, 3, 7} {
-			if _, ok := exec(Frag{Every: ev}, -2, int64(i), true); !ok {
-				return
+	if r0.Hang {
+		return
+	}
+	switch b.phase {
+	case 0:
+		if b.plan >= 1 {
+			for i, ev := range []int{1, 2, 3, 7} {
+				if _, ok := exec(Frag{Every: ev}, -2, int64(i), true); !ok {
+					markFailed()
+					return
+				}
 			}
 		}
-	}
-	if b.plan < 2 {
-		return
-	}
-	cuts := cutPositions(&b.sp, r0, b.span)
-	if first {
+	case 1:
+		cuts := cutPositions(&b.sp, r0, b.span)
 		bad := 0
 		for i, c := range cuts {
 			if _, ok := exec(fragOf(c), int64(i), -1, true); !ok {
-				bad++
-				if bad >= 8 {
+				markFailed()
+				if bad++; bad >= 8 {
 					return
 				}
 			}
 		}
-		if bad > 0 {
-			return
-		}
-	}
-	if b.plan < 3 {
-		return
-	}
-	bad := 0
-	for i := range cuts {
-		if i%b.shards != b.shard {
-			continue
-		}
-		if e.capped.Load() {
-			return
-		}
-		for j := i + 1; j < len(cuts); j++ {
-			if _, ok := exec(fragOf(cuts[i], cuts[j]), int64(i), int64(j), true); !ok {
-				bad++
-				if bad >= 8 {
-					return
+	case 2:
+		cuts := cutPositions(&b.sp, r0, b.span)
+		bad := 0
+		for i := range cuts {
+			if i%b.shards != b.shard {
+				continue
+			}
+			if e.capped.Load() {
+				return
+			}
+			for j := i + 1; j < len(cuts); j++ {
+				if _, ok := exec(fragOf(cuts[i], cuts[j]), int64(i), int64(j), true); !ok {
+					if bad++; bad >= 8 {
+						return
+					}
 				}
 			}
-		}
-		if i%16 == 0 && time.Now().After(e.deadline) {
-			if !e.capped.Swap(true) {
-				e.c.Cap("time budget reached while enumerating pairs of cuts in part " + p.name)
+			if i%16 == 0 && time.Now().After(e.deadline) {
+				if !e.capped.Swap(true) {
+					e.c.Cap("time budget reached in pass 2 (pairs of cuts) at part " + p.name)
+				}
+				return
 			}
-			return
 		}
 	}
 }
@@ -386,18 +441,18 @@ func (e *engine) finish() {
 		sigs = append(sigs, s)
 	}
 	sort.Strings(sigs)
-	timer := time.NewTimer(time.Hour)
 	for _, s := range sigs {
 		v := e.viols[s]
 		for i := 0; i < 5; i++ {
 			sp := v.sp
-			r := runCase(&sp, timer)
+			r := runOnce(&sp)
 			if !hasSig(&sp, oracle(&sp, r), s) {
 				harness.Fatal("violation %q did not reproduce on re-execution %d (nondeterminism in the harness): %s", s, i, v.what)
 			}
 		}
 		c.Violation(s, v.what, map[string]any{"spec": v.sp})
 	}
+	pprof.StopCPUProfile()
 	c.Finish()
 }
 
@@ -669,6 +724,29 @@ func (e *engine) enumerate() {
 		}
 	}
 
+	// ---- 4b. authentication enabled, nobody configured
+	{
+		p := e.part("auth-enabled-no-users",
+			"protocols {socks5,http} x authentication enabled with an empty user list x client {no credentials, credentials of lengths {1,255}} x target kind {IPv4, IPv6, domain}: every request must be refused",
+			"every single cut and read sizes 1,2,3,7")
+		targets := []Target{{Kind: "ip", IP: "1.2.3.4", Port: 80}, {Kind: "ip", IP: "2001:db8::1", Port: 443}, {Kind: "domain", Domain: []byte("example.com"), Port: 8080}}
+		for _, proto := range []string{"socks5", "http"} {
+			for _, t := range targets {
+				for _, n := range []int{0, 1, 255} {
+					sp := newSpec(proto)
+					sp.ServerAuth = true
+					sp.Target = t
+					sp.CredCase = "no-users-configured"
+					if n > 0 {
+						sp.ClientAuth = true
+						sp.CU, sp.CP = credPattern("ascii", n, n, proto == "http")
+					}
+					e.emit(p, sp, 2, 2)
+				}
+			}
+		}
+	}
+
 	// ---- 5. every byte value in usernames, passwords and domains
 	{
 		p := e.part("byte-values",
@@ -899,8 +977,7 @@ func replay(c *harness.Check) {
 	if err := json.Unmarshal(b, &sp); err != nil {
 		harness.Fatal("replay record: %v", err)
 	}
-	timer := time.NewTimer(time.Hour)
-	res := runCase(&sp, timer)
+	res := runOnce(&sp)
 	fmt.Println("replay case:", sp.describe())
 	fmt.Printf("client->server wire (%d bytes, chunk ends %v): %q\n", len(res.CS), res.CSEnds, clip(res.CS))
 	fmt.Printf("server->client wire (%d bytes, chunk ends %v): %q\n", len(res.SC), res.SCEnds, clip(res.SC))
@@ -942,9 +1019,18 @@ func main() {
 		"HTTP domain targets are restricted to host characters an HTTP authority can carry (letters, digits, '-', '.')",
 		"not demanded: delivery of bytes a client pushes before the server's success reply; any particular reply code beyond the RFC 1928 class (ruleset/network/host/refused; other failures must be REP 1,3,4 or 6) or beyond 5xx (403 allowed for EACCES) for HTTP; the reply to Abort with the success code; the user name reported by an HTTP server whose authentication is disabled; TLS variants of the HTTP proxy; non-CONNECT HTTP requests (property C16)",
 	}
+	if only := os.Getenv("C07_PARTS"); only != "" {
+		c.Cap("development run restricted to parts " + only)
+	}
+	if pf := os.Getenv("C07_PROF"); pf != "" {
+		f, _ := os.Create(pf)
+		pprof.StartCPUProfile(f)
+		defer pprof.StopCPUProfile()
+	}
+	debug.SetGCPercent(300)
 	e := newEngine(c)
-	e.enumerate()
+	for phase := 0; phase < 3; phase++ {
+		e.pass(phase)
+	}
 	e.finish()
 }
-
-var _ = strings.Join
